@@ -10,6 +10,7 @@ import (
 
 	"github.com/lidofinance/dc4bc/client/api/dto"
 	"github.com/lidofinance/dc4bc/client/modules/state"
+	"github.com/lidofinance/dc4bc/fsm/types/requests"
 	"github.com/lidofinance/dc4bc/storage"
 	"github.com/lidofinance/dc4bc/storage/file_storage"
 
@@ -134,6 +135,18 @@ func junkify(rec *world.Recording, L []storage.Message) []storage.Message {
 			out = append(out, alien)
 		}
 	}
+	// messages that the round FSM accepts but the node then refuses (nothing may stay behind):
+	// a proposal whose baked range cannot be expanded, right after the key generation
+	var out2 []storage.Message
+	for i, m := range out {
+		out2 = append(out2, m)
+		if m.Event == "event_dkg_master_key_confirm_received" && (i+1 == len(out) || out[i+1].Event == "event_signing_start") {
+			w := rec.W
+			bad := w.ProposalMessage(1, rec.Round, "batch-that-cannot-be-expanded", []requests.SigningTask{{MessageID: "beyond-the-list", RangeStart: 18600, RangeEnd: 18700}})
+			out2 = append(out2, bad)
+		}
+	}
+	out = out2
 	for i := range out {
 		out[i].Offset = uint64(i)
 		out[i].ID = fmt.Sprintf("00000000-0000-4000-8000-%012d", i)
